@@ -37,6 +37,36 @@ KEY_ALIAS = "C14:globals:proto-aliases-mutated-global:"           # + kind
 LATER_KINDS = {"float": True, "list_rebound": True, "list_inplace": False, "int_attr": True, "callee": True, "if_cond": True,
                "loop": True, "nonlocal": True, "array_inplace": False, "array_expr": False}
 
+# shared-memory measurements (harness/c14_ops.py op_s_alias_<kind>): kind -> (own `writeable` flag of the array the script sees,
+# use: expr -> Converter._emit_const / attr -> Converter._translate_attr, family)
+ALIAS_KINDS = {
+    "ro_view": (False, "expr", "ndarray"), "ro_view_attr": (False, "attr", "ndarray"), "broadcast": (False, "expr", "ndarray"),
+    "frombuffer": (True, "expr", "ndarray"), "frombuffer_ro": (False, "expr", "ndarray"), "slice": (True, "expr", "ndarray"),
+    "transposed": (True, "expr", "ndarray"), "0d": (True, "expr", "ndarray"), "memmap": (False, "expr", "ndarray"),
+    "ro_owner": (False, "expr", "ndarray"),
+    "in_list": (True, "attr", "container"), "in_tuple": (True, "expr", "container"), "in_tuple_sub": (True, "expr", "container"),
+    "tensorproto_attr": (None, "attr", "tensor-object"), "irtensor_attr": (None, "attr", "tensor-object"),
+}
+
+# state the inventory (Gen/StateInventory.v) cannot put into one of the four classes: the history experiments that exercise it, by name
+# (each op must occur in FIXED_SEQUENCES with a history before it), and why the state cannot change a result
+_PB = ["x_bad_pattern", "m_rw_operator_pattern"]
+INV_EXPERIMENTS = {
+    "onnx_types:_tensor_type_shape_cache": (["s_if3", "s_loop3", "s_opset15", "s_domain_v1"],
+                                            "memo of FLOAT[shape] classes keyed by (dtype, shape): the key is everything the class is built from"),
+    "onnx_types:tensor_type_registry": (["s_if3", "s_loop3", "s_opset15", "s_domain_v1"],
+                                        "filled by __init_subclass__ of the unshaped tensor types, all defined while onnx_types is imported (shaped subclasses skip the store)"),
+    "_internal/evaluator:ort_mixed_evaluator": (["s_later_float", "s_alias_slice"], "python implementations registered by decorators at import; used by eager evaluation only"),
+    "_internal/evaluator:_default_evaluator@set_default": (["s_later_float", "s_alias_slice"], "user configuration, changed only by an explicit set_default(...) call; eager evaluation only"),
+    "rewriter/_pattern_ir:onnxop": (_PB, "OpsetPatternBuilder('') is constructed with record=False: add_node() appends only `if self._record`"),
+    "rewriter/_pattern_ir:torch_module_op": (_PB, "OpsetPatternBuilder(PrefixPattern('pkg.torch')) is constructed with record=False"),
+    "rewriter/_pattern_ir:_pattern_builder@pattern_builder": (_PB, "swapped without try/finally; every pattern construction enters `with pattern_builder(..)` before it evaluates "
+                                                              "the pattern function, so a stale value is never read (proposed_fixes/C14_pattern_builder_finally.diff)"),
+    "rewriter/_pattern_ir:OpsetPatternBuilder._nodes": (_PB, "appended only by recording builders, which are created per pattern construction"),
+    "rewriter/_pattern_ir:ValuePattern._uses": (["m_rw_operator_pattern", "m_rw_default", "m_set_materialize"],
+                                                "appended while a pattern is constructed (once per rule object), read by the matcher as part of the pattern"),
+}
+
 _GEN = {}
 
 
@@ -65,6 +95,19 @@ def regenerate(ctx):
     ctx.gen("ProcessStateSites", text)
     _GEN["state_sites"] = ssites
     _GEN["state_problems"] = probs
+    text, objs, probs = tr.object_cfgs(common.REPO)
+    ctx.gen("ObjectCfgs", text)
+    _GEN["objects"] = objs
+    _GEN["object_problems"] = probs
+    text, isites, probs, ifiles = tr.state_inventory(common.REPO, rules, memos, objs, {k: v[0] for k, v in INV_EXPERIMENTS.items()})
+    ctx.gen("StateInventory", text)
+    _GEN["inventory"] = isites
+    _GEN["inventory_problems"] = probs
+    _GEN["inventory_files"] = ifiles
+    text, csites, probs = tr.capture_policy(common.REPO)
+    ctx.gen("CapturePolicy", text)
+    _GEN["capture_sites"] = csites
+    _GEN["capture_problems"] = probs
 
 
 # ----------------------------------------------------------------------------------------------- op catalogue
@@ -82,7 +125,9 @@ FAMILIES = {
     "rw-reshape": ["m_rw_reshape", "m_rw_reshape_b", "m_rw_reshape_allowzero", "m_rw_reshape_nofire", "x_rw_reshape_raises", "m_rw_default"],
     "rw-flatten-pad": ["m_rw_flatten", "m_rw_flatten_b", "m_rw_padconv", "m_rw_padconv_b", "m_rw_padconv_nofire"],
     "rw-norm": ["m_rw_materialize", "m_rw_materialize_b", "m_rw_layernorm", "m_rw_layernorm_b", "m_rw_rmsnorm", "m_rw_rmsnorm_b"],
-    "optimize": ["m_opt_fold", "m_opt_fold_b", "m_opt_if", "m_pass_fold", "m_pass_nofold", "m_pass_if", "x_opt_bad"],
+    "optimize": ["m_opt_fold", "m_opt_fold_b", "m_opt_if", "m_pass_fold", "m_pass_nofold", "m_pass_if", "x_opt_bad", "x_pass_fold_then_raise",
+                 "m_pass_nofold_unnamed"],
+    "rw-shared-set": ["m_set_materialize", "m_set_materialize_b", "x_set_raises_midway", "m_rw_materialize", "m_rw_materialize_b"],
     "convert-pattern": ["m_convert_up", "m_convert_up_b", "m_convert_up_c", "x_convert_bad", "x_bad_pattern", "m_rw_operator_pattern"],
     "convert-functions-subgraphs": ["m_convert_fn_sub", "m_convert_fn_sub_b", "m_convert_fn_sub_ir", "m_convert_up", "x_convert_bad", "m_opt_func_a"],
     "script-proto-options": ["s_proto_options", "s_repeat", "s_repeat_lib", "s_calls", "s_if1"],
@@ -93,6 +138,7 @@ FAMILIES = {
     # as_function extraction of a match spanning six operator domains (main graph / model-local function / If branch)
     "rw-as-function": ["m_rw_as_function_domains", "m_rw_as_function_domains_fn", "m_rw_as_function_domains_if"],
     "script-later-calls": ["s_later_" + k for k in LATER_KINDS],
+    "script-alias": ["s_alias_" + k for k in ALIAS_KINDS],
 }
 
 # hand-made histories aimed at the mechanisms named in the property's anchors (each op is a target for its prefix)
@@ -120,6 +166,18 @@ FIXED_SEQUENCES = [
     ["m_convert_fn_sub_b", "m_convert_fn_sub", "x_convert_bad", "m_convert_fn_sub_ir", "m_convert_fn_sub", "m_opt_func_a", "m_convert_fn_sub_b", "m_convert_up"],
     # to_model_proto with different options in sequence, around other decorations
     ["s_proto_options", "s_repeat", "s_calls", "s_proto_options", "s_later_float", "s_later_callee", "s_proto_options", "s_if1"],
+    # operations that raise PART-WAY on a shared object, before the target on the same object: the fold pass after it folded a node,
+    # a rule set after it rewrote and named a value, a rule singleton after check() stashed a field, the pattern builder swapped by a
+    # pattern function that raised, the version converter refusing a target, a script refused after an If was translated
+    ["m_pass_nofold_unnamed", "x_pass_fold_then_raise", "m_pass_nofold_unnamed", "m_pass_nofold", "x_pass_fold_then_raise", "m_pass_if", "m_pass_fold", "m_pass_nofold_unnamed"],
+    ["x_pass_fold_then_raise", "m_pass_nofold", "m_pass_fold", "x_pass_fold_then_raise", "m_pass_nofold_unnamed", "m_opt_fold"],
+    ["m_set_materialize", "x_set_raises_midway", "m_set_materialize", "m_set_materialize_b", "x_set_raises_midway", "m_set_materialize_b", "m_rw_materialize", "m_rw_materialize_b"],
+    ["x_set_raises_midway", "m_set_materialize_b", "m_rw_materialize", "x_rw_reshape_raises", "m_rw_reshape", "x_bad_pattern", "m_rw_operator_pattern", "m_set_materialize"],
+    ["x_convert_bad", "m_convert_fn_sub", "x_bad_script_stmt", "s_if3", "x_bad_script_unbound", "s_loop3", "x_opt_bad", "m_opt_fold"],
+    # eager evaluation (default evaluator, registered python ops) after refused scripts
+    ["x_bad_script_stmt", "s_later_float", "x_bad_script_unbound", "s_alias_slice", "s_alias_in_tuple", "s_later_array_inplace"],
+    # constants that share memory with a base written after decoration, around other decorations
+    ["s_alias_ro_view", "s_consts", "s_alias_broadcast", "s_alias_slice", "s_alias_ro_view", "s_alias_in_list", "s_later_array_expr", "s_alias_ro_view_attr"],
 ]
 
 # equalities between different operations required by the property text
@@ -278,7 +336,8 @@ def part_rule_proofs(ctx):
     """diagnostics first (which classes fail), then the theorems."""
     ok, log = ctx.build(["Gen/RuleCfgs.vo", "Gen/ConverterSites.vo", "Gen/EvaluatorCache.vo", "Determinism/MustDefProofs.vo",
                          "Determinism/PermProofs.vo", "Determinism/KeyedCacheProofs.vo", "Determinism/ProcessStateProofs.vo",
-                         "Determinism/SnapshotProofs.vo", "Gen/ProcessStateSites.vo", "Determinism/RuleCfgsOk.vo"])
+                         "Determinism/SnapshotProofs.vo", "Gen/ProcessStateSites.vo", "Determinism/RuleCfgsOk.vo",
+                         "Determinism/AliasProofs.vo", "Gen/CapturePolicy.vo"])
     if not ok:
         return []
     okm, valsm, rawm = ctx.coq_eval(["OV.Determinism.KeyedCache", "OV.Gen.EvaluatorCache"], "Eval vm_compute in (bad_memos EvaluatorCache.memos).")
@@ -589,6 +648,199 @@ def part_later_calls(ctx, fresh0):
     ctx.sample({"later_calls": {k: table[k] for k in list(table)[:3]}})
 
 
+def part_state_inventory(ctx):
+    """Gen/StateInventory.v: every piece of state that outlives one operation is in one of the four classes of StateClasses.v (decided by the
+    translator and the proved analyses) or names the history experiments that exercise it; anything else fails."""
+    for p in _GEN.get("object_problems", []):
+        ctx.tie_broken("translator", "object_cfgs", p)
+    for p in _GEN.get("inventory_problems", []):
+        ctx.tie_broken("translator", "state_inventory", p)
+    sites = _GEN.get("inventory", [])
+    ctx.obligation(f"translator state_inventory: module-level objects, cache decorators, class attributes, `global` statements and instance attributes written "
+                   f"outside the constructors of {len(_GEN.get('inventory_files', []))} modules enumerated; entry methods of {len(tr.OBJECT_ENTRIES)} further long-lived "
+                   "classes reduced to the must-definition language (fail-closed for the anchored modules)",
+                   not _GEN.get("object_problems") and not _GEN.get("inventory_problems"),
+                   "; ".join((_GEN.get("object_problems", []) + _GEN.get("inventory_problems", []))[:3]))
+    ok, log = ctx.build(["Determinism/StateClassesProofs.vo", "Gen/ObjectCfgs.vo", "Gen/StateInventory.vo"])
+    if not ok:
+        return
+    ok, vals, raw = ctx.coq_eval(["OV.Determinism.MustDef", "OV.Determinism.StateClasses", "OV.Gen.ObjectCfgs", "OV.Gen.StateInventory"],
+                                 "Eval vm_compute in (bad_inventory StateInventory.inventory).\n"
+                                 "Eval vm_compute in (bad_rules ObjectCfgs.objects).\n"
+                                 "Eval vm_compute in (List.length (List.filter in_four_classes StateInventory.inventory)).\n", name="state_inventory")
+    if not ok:
+        ctx.tie_broken("proof", "bad_inventory evaluation", raw[-600:])
+        return
+    bad = re.findall(r'"([^"]+)"', vals[0])
+    bad_objs = re.findall(r'"([^"]+)"', vals[1])
+    n_four = int(re.sub(r"%\w+", "", vals[2]))
+    by = {f"{s['module']}:{s['name']}": s for s in sites}
+    kinds = {}
+    for s in sites:
+        c = s["cls"].split()[0].strip("(")
+        c = {"if": "decided-by-rule_ok"}.get(c, c)
+        kinds[(s["kind"], c)] = kinds.get((s["kind"], c), 0) + 1
+        ctx.case(("inventory", s["kind"], c, s["module"].split("/")[0]))
+    exp_sites = {k: s for k, s in by.items() if s["cls"].startswith("SExperiment")}
+    ctx.cover(inventory_sites=len(sites), inventory_in_four_classes=n_four, inventory_modules=len(_GEN.get("inventory_files", [])),
+              inventory_by_kind_and_class={f"{a}/{b}": n for (a, b), n in sorted(kinds.items())},
+              inventory_experiments={k: {"ops": INV_EXPERIMENTS[k][0], "why": INV_EXPERIMENTS[k][1]} for k in exp_sites if k in INV_EXPERIMENTS},
+              inventory_object_entries_rejected_by_must_def=bad_objs, inventory_excluded_dirs=list(tr.INV_EXCLUDE))
+    ctx.obligation(f"process state inventory: each of the {len(sites)} pieces of state that outlive one operation is keyed by everything the result depends on, "
+                   "reset at the start of every operation (or belongs to an object created per operation), written before read on every path (must-definition "
+                   "check), written only at import, or names its history experiments (bad_inventory over Gen/StateInventory.v by vm_compute)",
+                   not bad, "neither classified nor exercised: " + "; ".join(f"{b} ({by.get(b, {}).get('why', '?')[:120]})" for b in bad[:6]))
+    for b in bad[:8]:
+        ctx.tie_broken("translator", "state_inventory", f"state that outlives an operation and is in none of the four classes, with no history experiment named: {b} "
+                       f"({by.get(b, {}).get('why', '?')[:300]}): results may depend on what the process did before")
+    # the experiments named must exist and have a history before them in a fixed sequence
+    ids = set(op_ids())
+    with_history = {o for sq in FIXED_SEQUENCES for o in sq[1:]}
+    after_failure = {o for sq in FIXED_SEQUENCES for i, o in enumerate(sq) if any(h.startswith("x_") for h in sq[:i])}
+    missing = sorted({o for k in exp_sites for o in INV_EXPERIMENTS.get(k, ([], ""))[0] if o not in ids or o not in with_history})
+    no_fail = sorted(k for k in exp_sites if not any(o in after_failure for o in INV_EXPERIMENTS.get(k, ([], ""))[0]))
+    stale = sorted(k for k in INV_EXPERIMENTS if k not in by)
+    ctx.obligation(f"process state inventory: the {len(exp_sites)} sites outside the four classes name history experiments that exist, run after a history in "
+                   "a fixed sequence, and at least one per site runs after a failing operation", not missing and not no_fail and not stale,
+                   f"missing/without history: {missing}; never after a failing operation: {no_fail}; entries whose site is gone: {stale}")
+    if missing or no_fail or stale:
+        ctx.tie_broken("harness", "state_inventory", f"experiment table out of date: missing {missing}, no failing history {no_fail}, stale {stale}")
+    _GEN["experiment_ops"] = sorted({o for k in exp_sites for o in INV_EXPERIMENTS.get(k, ([], ""))[0]})
+    if not bad:
+        okt, _v, rawt = ctx.coq_eval([], "Require Import OV.Determinism.MustDef OV.Determinism.StateClasses OV.Determinism.StateClassesProofs OV.Gen.StateInventory.\n"
+                                         "From Coq Require Import List String.\nImport ListNotations.\n"
+                                         "Theorem inventory_all_ok : bad_inventory StateInventory.inventory = [].\nProof. vm_compute. reflexivity. Qed.\n"
+                                         "Theorem inventory_sites_classified : forall s, In s StateInventory.inventory ->\n"
+                                         "  in_four_classes s = true \\/ exists ops, iv_class s = SExperiment ops /\\ ops <> [].\n"
+                                         "Proof. exact (inventory_ok_classes StateInventory.inventory inventory_all_ok). Qed.\n"
+                                         "Print Assumptions inventory_sites_classified.\n", name="inventory_thm")
+        closed = okt and "Closed under the global context" in rawt
+        ctx.obligation("process state inventory: theorem inventory_sites_classified over Gen/StateInventory.v (every site is in a class of "
+                       "C14_four_classes_history_independent or names experiments)", closed, rawt[-300:])
+        if not closed:
+            ctx.tie_broken("proof", "inventory_sites_classified", rawt[-400:])
+    must = ["optimizer/_constant_folding:FoldConstantsPass._modified", "rewriter/_rewrite_rule:RewriteRuleSet._value_name_counter",
+            "_internal/values:Opset.cache", "rewriter/_matcher:SimplePatternMatcher._match", "_internal/converter:Converter._locals",
+            "rewriter/rules/common/_basic_rules:ReshapeReshape._new_shape", "version_converter/_version_converter:_VersionConverter._modified"]
+    gone = [m for m in must if m not in by]
+    if gone or len(sites) < 150:
+        ctx.tie_broken("translator", "state_inventory", f"degenerate: {len(sites)} sites; anchored state no longer seen: {gone}")
+
+
+def part_capture_policy(ctx):
+    """Gen/CapturePolicy.v: the copy policy of each place where a script-time constant enters the function, as the sources say now."""
+    for p in _GEN.get("capture_problems", []):
+        ctx.tie_broken("translator", "capture_policy", p)
+    sites = _GEN.get("capture_sites", [])
+    ctx.obligation("translator capture_policy: Converter._emit_const, Converter._translate_attr and main._freeze_constant copy an ndarray constant under a "
+                   "recognised condition, before it is handed on, and no other function of converter.py/irbuilder.py builds a tensor from a python value "
+                   "(fail-closed)", not _GEN.get("capture_problems") and len(sites) == len(tr.CAPTURE_SITES), "; ".join(_GEN.get("capture_problems", [])[:3]))
+    ctx.cover(capture_sites={s["name"]: {"policy": s["policy"], "copied_types": s["types"], "line": s["line"]} for s in sites})
+    for s in sites:
+        ctx.case(("capture-site", s["name"], s["policy"]))
+    ok, vals, raw = ctx.coq_eval([], "Require Import OV.Determinism.Alias OV.Determinism.AliasProofs OV.Gen.CapturePolicy.\nFrom Coq Require Import List String.\n"
+                                     "Eval vm_compute in (weak_policies CapturePolicy.capture_policies).\n", name="capture_policy")
+    if not ok:
+        ctx.tie_broken("proof", "weak_policies evaluation", raw[-500:])
+        return
+    weak = re.findall(r'"([^"]+)"', vals[0])
+    _GEN["weak_capture_sites"] = weak
+    okt, rawt = False, ""
+    if not weak:
+        okt, _v, rawt = ctx.coq_eval([], "Require Import OV.Determinism.Alias OV.Determinism.AliasProofs OV.Gen.CapturePolicy.\nFrom Coq Require Import List String.\n"
+                                         "Theorem capture_sites_all_deep : forallb (fun sp => is_always (snd sp)) CapturePolicy.capture_policies = true.\n"
+                                         "Proof. vm_compute. reflexivity. Qed.\n"
+                                         "Theorem capture_sites_fixed : forall sp, In sp CapturePolicy.capture_policies ->\n"
+                                         "  later_results_fixed_alias (snd sp) /\\ captures_decoration_values (snd sp).\n"
+                                         "Proof. exact (policies_fixed CapturePolicy.capture_policies capture_sites_all_deep). Qed.\n"
+                                         "Print Assumptions capture_sites_fixed.\n", name="capture_thm")
+    ctx.obligation(f"script-time constants: each of the {len(sites)} capture sites read from the sources copies an ndarray unconditionally, hence later writes "
+                   "through any alias change nothing (theorem capture_sites_fixed over Gen/CapturePolicy.v)",
+                   not weak and okt and "Closed under the global context" in rawt, f"sites that do not always copy: {weak}" if weak else rawt[-300:])
+    if not weak and not (okt and "Closed under the global context" in rawt):
+        ctx.tie_broken("proof", "capture_sites_fixed", rawt[-400:])
+
+
+def part_alias_calls(ctx, fresh0):
+    """Constants that share memory with a mutable base (Determinism/Alias.v): per kind, is the result fixed when the BASE is written after
+    decoration; which copy policy explains the observations; does it agree with what the translator read from the sources."""
+    rows, broken = [], []
+    for kind, (flag, use, family) in ALIAS_KINDS.items():
+        op = "s_alias_" + kind
+        e = fresh0.get(op)
+        ctx.case(("alias-calls", kind, family, use, flag))
+        if e is None or not e.get("ok"):
+            ctx.tie_broken("harness", "alias-calls", f"{op} did not run: {(e or {}).get('err')} {(e or {}).get('msg', '')[:120]}")
+            continue
+        sha, obs = e["sha"], e.get("obs", {})
+        if sha["eager_before"] != sha["proto_before"] or obs.get("eager_before", "ERR").startswith("ERR"):
+            broken.append(f"{op}: eager call and generated model disagree before any mutation: {obs.get('eager_before')} / {obs.get('proto_before')}")
+            continue
+        if obs.get("obs_seen_after") == obs.get("obs_seen_before") or "obs_seen_after" not in obs or obs.get("obs_seen_before", "ERR").startswith("ERR"):
+            broken.append(f"{op}: the write to the base is not visible through the object the script refers to ({obs.get('obs_seen_before')} -> {obs.get('obs_seen_after')})")
+            continue
+        if flag is not None and obs.get("obs_writeable") != repr(flag):
+            broken.append(f"{op}: the object's own writeable flag is {obs.get('obs_writeable')}, the kind table says {flag}")
+            continue
+        proto_fixed = sha["proto_after"] == sha["proto_before"] and sha["function_after"] == sha["function"]
+        eager_fixed = sha["eager_after"] == sha["eager_before"] and sha["eager_again"] == sha["eager_before"]
+        rows.append((kind, flag, use, family, eager_fixed, proto_fixed))
+        replay = {"op": op, "kind": kind, "mutation": "write to the base object after decoration", **obs}
+        if not proto_fixed:
+            ctx.violation(KEY_ALIAS + "alias_" + kind, f"{op}: the protos generated by an already decorated script function change when the storage its constant "
+                          f"shares with another object is written afterwards (onnxruntime on to_model_proto(): {obs.get('proto_before')} -> {obs.get('proto_after')}; "
+                          f"own writeable flag of the constant: {obs.get('obs_writeable')})", replay)
+        if not eager_fixed:
+            ctx.violation(KEY_EAGER + "alias_" + kind, f"{op}: a later eager call of an already decorated script function changes when the storage its constant "
+                          f"shares with another object is written afterwards ({obs.get('eager_before')} -> {obs.get('eager_after')}; the generated model gives "
+                          f"{obs.get('proto_after')})", replay)
+    for b in broken:
+        ctx.tie_broken("harness", "alias-calls", b)
+    ctx.obligation(f"shared-memory generator: each of the {len(ALIAS_KINDS)} kinds runs, eager call = generated model before the mutation, the write to the base is "
+                   "visible through the object the script refers to, and the object's own writeable flag is the one the kind table states",
+                   not broken and len(rows) == len(ALIAS_KINDS), "; ".join(broken[:3]))
+    arr = [r for r in rows if r[1] is not None]
+    if not arr:
+        return
+    b = lambda x: "true" if x else "false"
+    groups = {"proto:expr": [(f, pf) for _k, f, u, _fam, _ef, pf in arr if u == "expr"],
+              "proto:attr": [(f, pf) for _k, f, u, _fam, _ef, pf in arr if u == "attr"],
+              "eager:ndarray": [(f, ef) for _k, f, _u, fam, ef, _pf in arr if fam == "ndarray"],
+              "eager:container": [(f, ef) for _k, f, _u, fam, ef, _pf in arr if fam == "container"]}
+    body = ("Require Import OV.Determinism.Alias.\nFrom Coq Require Import List.\nImport ListNotations.\n"
+            + "".join("Eval vm_compute in (map policy_code (consistent_alias [" + "; ".join(f"({b(f)}, {b(x)})" for f, x in g) + "])).\n" for g in groups.values()))
+    ok, vals, raw = ctx.coq_eval([], body, name="alias_calls")
+    if not ok or len(vals) != len(groups):
+        ctx.tie_broken("correspondence", "alias-calls", raw[-500:])
+        return
+    names = {0: "no-copy", 1: "copy-if-writeable", 2: "copy-always"}
+    expl = {g: [names[c] for c in common.parse_nat_list(v)] for g, v in zip(groups, vals)}
+    ctx.cover(alias_calls={k: {"own_writeable_flag": f, "use": u, "family": fam, "eager_fixed": ef, "proto_fixed": pf} for k, f, u, fam, ef, pf in rows},
+              alias_policies_explaining=expl)
+    ctx.sample({"alias_calls": {k: {"flag": f, "eager_fixed": ef, "proto_fixed": pf} for k, f, _u, _fam, ef, pf in rows[:3]}})
+    site_of = {"proto:expr": "converter:_emit_const", "proto:attr": "converter:_translate_attr", "eager:ndarray": "main:_freeze_constant"}
+    pol = {s["name"]: {"NoCopy": "no-copy", "CopyIfWriteable": "copy-if-writeable", "CopyAlways": "copy-always"}[s["policy"]] for s in _GEN.get("capture_sites", [])}
+    for g, site in site_of.items():
+        ctx.obligation(f"shared memory ({g}): the generated results are unchanged by writes to the base of a view / buffer window / memory map, whatever the "
+                       "view's own writeable flag (policy 'copy-always' of Alias.predict_alias explains every kind)", "copy-always" in expl[g],
+                       f"explaining policies: {expl[g]}")
+        if site in pol and pol[site] not in expl[g]:
+            ctx.obligation(f"correspondence: the copy policy the translator read at {site} explains the observed kinds", False, f"translated {pol[site]}, observed {expl[g]}")
+            if "copy-always" in expl[g] or not expl[g]:
+                # the observed behaviour is not what the source text says and no violation explains it
+                ctx.tie_broken("correspondence", "capture_policy", f"{site}: translated policy {pol[site]} but the {g} observations are explained by {expl[g]}")
+        elif site in pol:
+            ctx.obligation(f"correspondence: the copy policy the translator read at {site} explains the observed kinds", True, "")
+    ctx.obligation("shared memory (eager, arrays held in a list / tuple global): later eager calls are unchanged by writes to the arrays inside "
+                   "(policy 'copy-always' explains every kind)", "copy-always" in expl["eager:container"], f"explaining policies: {expl['eager:container']}")
+    others = [r for r in rows if r[1] is None]
+    ctx.obligation("shared memory (tensor objects that are not arrays: TensorProto, onnx_ir.Tensor used as an attribute value): protos and eager calls are "
+                   "unchanged by later mutation of the object", all(ef and pf for *_x, ef, pf in others), str([(r[0], r[4], r[5]) for r in others]))
+    weak = _GEN.get("weak_capture_sites") or []
+    if weak and all(pf and ef for _k, _f, _u, fam, ef, pf in rows if fam == "ndarray"):
+        ctx.tie_broken("proof", "capture_sites_fixed", f"capture sites {weak} do not copy unconditionally but no sampled kind of shared memory shows a changed result")
+
+
 def make_sequences(ctx):
     ids = op_ids()
     seqs = [list(s) for s in FIXED_SEQUENCES]
@@ -768,6 +1020,7 @@ def part_oracle(ctx, unsorted_sites, bad_rules):
     ctx.sample({"sequence": seqs[0], "seed": seeds[0]})
     ctx.sample({"sequence": seqs[-1], "seed": seeds[(len(seqs) - 1) % len(seeds)]})
     part_later_calls(ctx, fresh0)
+    part_alias_calls(ctx, fresh0)
     ctx.obligation("direct oracle: every operation gives the same bytes after every sampled history as in a fresh process", not hist_dep,
                    "; ".join(f"{o} after {list(h)}" for o, h, *_ in hist_dep[:3]))
     ctx.obligation("direct oracle: every operation gives the same bytes under every sampled PYTHONHASHSEED", not seed_dep,
@@ -797,7 +1050,10 @@ def run(ctx):
     ctx.assume("a configuration field (assigned only while the object is constructed) holds the same value in every process; mutation of the "
                "object a configuration field refers to by code outside the class is not modelled")
     ctx.assume("a script function body only looks outer names up (Snapshot.respects): python code that inspects the namespace object itself "
-               "(globals(), vars()) is outside the model; kinds of globals measured: " + ", ".join(LATER_KINDS))
+               "(globals(), vars()) is outside the model; kinds of globals measured: " + ", ".join(LATER_KINDS)
+               + "; kinds of shared memory measured: " + ", ".join(ALIAS_KINDS))
+    ctx.assume("Alias.outside: the rest of the program cannot name the buffers the decorator allocated for its copies (a copy made by ndarray.copy() / "
+               "copy.deepcopy is referenced only by the function being built)")
     ctx.assume("what a memoizing method computes on a miss depends only on the parameters the method mentions (depends_only_on) and on "
                "process-constant state (the onnx reference-op registry)")
     ctx.trust("translators harness/c14_translate.py (python ast, fail-closed) -- trusted to emit a faithful image of the recognised shapes; "
@@ -806,6 +1062,8 @@ def run(ctx):
     bad_rules = part_rule_proofs(ctx)
     ctx.check_props()
     part_process_state(ctx)
+    part_state_inventory(ctx)
+    part_capture_policy(ctx)
     unsorted_sites = part_sites(ctx)
     part_sort_correspondence(ctx)
     part_field_trace(ctx)
